@@ -459,3 +459,17 @@ package schema
 
 //@ func OneOfSchema.UnserializeType(o, data) -> result, err
 //@   ensures data == nil || kindOf(data) != KindMap ==> err != nil
+
+//@ func ObjectSchema.unserializeInlinedDataToMap(o, data) -> res, err
+//@   requires len(o.PropertiesValue) == 1
+//@   ensures err == nil ==> res != nil && (forall k string :: k in res ==> k in o.PropertiesValue && punserOK(o.PropertiesValue[k], data) && res[k] == punserV(o.PropertiesValue[k], data))
+//@   ensures err == nil ==> (exists k string :: k in res)
+//@   loop 1 invariant true
+
+//@ func ObjectSchema.Unserialize(o, data) -> result, err
+//@   requires o.fieldCache == nil && o.defaultValues != nil
+//@   ensures kindOf(data) != KindMap && len(o.PropertiesValue) != 1 ==> err != nil
+//@   ensures err == nil ==> typeOf(result) == type(map[string]any) && result.(map[string]any) != nil && (forall k string :: k in o.PropertiesValue ==> ruleOK(o.PropertiesValue[k], k, result.(map[string]any)))
+//@   ensures err == nil && kindOf(data) == KindMap ==> (forall k string :: k in result.(map[string]any) ==> k in o.PropertiesValue && finalForm(o, rv_of(data), old(o.defaultValues), result.(map[string]any), k))
+//@   ensures err == nil && kindOf(data) == KindMap ==> (forall j int :: 0 <= j && j < rv_len(rv_of(data)) ==> typeOf(rv_iface(rv_key(rv_of(data), j))) == type(string) && skey(rv_of(data), j) in result.(map[string]any))
+//@   ensures err == nil && kindOf(data) == KindMap ==> (forall k string :: k in o.PropertiesValue && !supplied(rv_of(data), k) && k in old(o.defaultValues) ==> k in result.(map[string]any))
